@@ -97,3 +97,17 @@ for _s, _fn, _tree, _files, _defs in (
                _tree: "contract stub (no effect on the counters)", "d_string_*, trim_trailing_whitespace_d_string": "no-op stubs (output not examined)",
                "raw_level_for_header, stack_*": "body"},
       min_obligations=20, timeout=300, cost=20, assumptions=[NOFAIL, "configuration -DI18N_DISABLED"])
+
+# ---- (5) the lookup behind every note call: the returned number indexes the used-stack of the same kind
+for _k, _st, _h in (("footnote", "used_footnotes", "footnote_hash"), ("citation", "used_citations", "citation_hash"),
+                    ("glossary", "used_glossaries", "glossary_hash"), ("abbreviation", "used_abbreviations", "abbreviation_hash")):
+    for _w, _wn in ((0, "miss"), (1, "direct"), (2, "label")):
+        U("extract_%s_%s" % (_k, _wn), ["C10"], "h_extract", ["C10/extract.c"], ["writer.c", "stack.c"], plain=True, lib=(), kind="bounded",
+          drop_bodies=["clean_string", "label_from_string", "stack_push"],
+          defines=["-DI18N_DISABLED=1", "-DEX_FN=extract_%s_from_stack" % _k, "-DEX_STACK=" + _st, "-DEX_HASH=" + _h, "-DEX_WHERE=%d" % _w],
+          cbmc_flags=["--unwind", "70", "--unwinding-assertions", "--object-bits", "12"],
+          bounds={"notes of this kind already used<=": 2, "hash": "one entry under the cleaned key / under the label key / empty (constant per unit)"},
+          functions=["extract_%s_from_stack" % _k, "mark_%s_as_used" % _k],
+          callees={"clean_string / label_from_string": "contract stubs returning the two candidate keys", "HASH_FIND_STR (uthash)": "real macro code over a real one-entry table",
+                   "stack_push": "contract stub (C18), no growth", "stack_new": "body"},
+          min_obligations=10, timeout=300, cost=10, assumptions=[NOFAIL])
